@@ -9,7 +9,7 @@ import time
 
 PROPERTY = 'C05'
 LEVEL = 'model_checking'
-BUDGET_S = {'quick': 900, 'thorough': 7200}
+BUDGET_S = {'quick': 3600, 'thorough': 14400}
 
 TIER = {'quick': dict(CW=5, E=5, W=32, WO=48), 'thorough': dict(CW=8, E=8, W=48, WO=72)}
 KINDS = ['RealFloat', 'Float', 'int', 'Fraction']
